@@ -4,6 +4,7 @@ import os, sys, json, time, hashlib, subprocess, fcntl
 V = os.environ.get('VERIF_HOME', '/verif')
 REPO = os.environ.get('VERIF_REPO', '/repo')
 WORK = os.environ.get('VERIF_WORK', os.path.join(V, '.work'))
+EVID = os.environ.get('VERIF_EVIDENCE', os.path.join(V, 'evidence'))
 
 sys.path.insert(0, os.path.join(V, 'rules'))
 from mir import Program
@@ -170,19 +171,19 @@ def run_property(pid, tier, rules, meta):
             known_hit.append((o, k))
         else:
             unknown_viol.append(o)
-    os.makedirs(os.path.join(V, 'evidence', 'replay'), exist_ok=True)
+    os.makedirs(os.path.join(EVID, 'replay'), exist_ok=True)
     for o, k in known_hit:
         print('KNOWN-FINDING: property=%s %s [%s]' % (pid, k['what'], o.key))
     rc = 0
     for o in unknown_viol:
-        rp = os.path.join(V, 'evidence', 'replay', '%s-%s.json' % (pid, hashlib.sha1(o.key.encode()).hexdigest()[:12]))
+        rp = os.path.join(EVID, 'replay', '%s-%s.json' % (pid, hashlib.sha1(o.key.encode()).hexdigest()[:12]))
         with open(rp, 'w') as f:
             json.dump({'property': pid, **o.to_json()}, f, indent=1)
         print('VIOLATION property=%s replay=%s' % (pid, rp))
         print('  rule=%s key=%s\n  what: %s\n  where: %s\n  fact: %s\n  expected: %s' % (o.rule, o.key, o.what, o.where, o.fact, o.expected))
         rc = 1
     for b in broken:
-        rp = os.path.join(V, 'evidence', 'replay', '%s-broken.json' % pid)
+        rp = os.path.join(EVID, 'replay', '%s-broken.json' % pid)
         with open(rp, 'w') as f:
             json.dump({'property': pid, 'broken': broken}, f, indent=1)
         print('VIOLATION property=%s replay=%s' % (pid, rp))
@@ -229,7 +230,7 @@ def run_property(pid, tier, rules, meta):
         'wall_s': round(time.time() - t0, 3),
         'violations': len(unknown_viol) + len(broken),
     }
-    with open(os.path.join(V, 'evidence', '%s.json' % pid), 'w') as f:
+    with open(os.path.join(EVID, '%s.json' % pid), 'w') as f:
         json.dump(ev, f, indent=1)
     print('%s tier=%s obligations=%d discharged=%d undecided=%d known=%d violations=%d wall=%.1fs' % (
         pid, tier, len(decided), len([o for o in decided if o.ok]), len(undec), len(known_hit), len(unknown_viol) + len(broken), time.time() - t0))
